@@ -285,6 +285,9 @@ impl Precedence for Format<'_, Formula> {
 
     fn mandatory_parentheses(&self) -> bool {
         match self.0 {
+            // A chained comparison is rendered as a conjunction `a & b` and therefore needs
+            // parentheses wherever a binary formula does.
+            Formula::AtomicFormula(AtomicFormula::Comparison(c)) => c.guards.len() > 1,
             Formula::AtomicFormula(_) | Formula::QuantifiedFormula { .. } => false,
             Formula::UnaryFormula { .. } | Formula::BinaryFormula { .. } => true,
         }
